@@ -174,6 +174,31 @@ def check_random_casing(desc, ctx):
                             f"(find: {'registry entry' if Adsorbate.find(priv) is owner else 'other'}, lookup of the "
                             f"string {'before' if order == 1 else 'after'})", tag="private_object_replaced")
         ctx.label("private_namesake")
+    if (mask >> 24) & 7 == 5:
+        # the adsorbate written to a user's database file in the meantime (schema only; property types auto-inserted)
+        import shutil
+        import tempfile
+        from pygaps.parsing.sqlite import adsorbate_to_db
+        from pygaps.utilities.sqlite_db_pragmas import PRAGMAS
+        from pygaps.utilities.sqlite_utilities import db_execute_general
+        tmp = tempfile.mkdtemp(prefix="c20_db_", dir="/dev/shm" if os.access("/dev/shm", os.W_OK) else None)
+        try:
+            path = os.path.join(tmp, "user.db")
+            for pragma in PRAGMAS:
+                db_execute_general(pragma, path)
+            adsorbate_to_db(owner, db_path=path, verbose=False)
+            for w in _variants(e["name"]) + [v]:
+                _resolve(w, owner, "name after the adsorbate was written to a database")
+            iso = BaseIsotherm(material="m-0", adsorbate=e["name"], temperature=300,
+                               pressure_mode="absolute", pressure_unit="bar", loading_basis="molar", loading_unit="mmol",
+                               material_basis="mass", material_unit="g", temperature_unit="K")
+            if iso.adsorbate is not owner:
+                raise Violation(f"after {e['name']!r} was written to a database an isotherm built with that name is linked "
+                                f"to another object", tag="isotherm_wrong_owner")
+            ctx.label("after_db_upload")
+        finally:
+            K.reset_registries()
+            shutil.rmtree(tmp, ignore_errors=True)
     _resolve(v, owner, "random casing")
     if not (owner == v):
         raise Violation(f"adsorbate {owner.name!r} != its own designation {v!r}", tag="eq_string")
